@@ -46,7 +46,7 @@ def correspondence(ctx, batch):
             if n <= 4 or rng.random() < 0.2:
                 inputs, kedges = table_inputs(n, edges)
                 stages.stage_pipeline(batch, inputs, registry, [stages.TableCmp(kedges)], parts=("merge", "replaces"))
-    for inputs, cmps in list(boundary_cases()) + list(order_cases()):
+    for inputs, cmps in list(boundary_cases()) + list(order_cases()) + list(fieldless_cases()):
         stages.stage_pipeline(batch, inputs, registry, cmps, parts=("merge", "replaces"))
         ctx.count("boundary_cases")
     for _ in range(ctx.n(80, 1500)):
@@ -109,6 +109,16 @@ def order_cases():
                        [ModelFieldsNumberMatch(10), ModelFieldsPercentMatch(.7), ModelFieldsEquals()]):
             for perm in itertools.permutations(policy):
                 yield [("Root", [{"ha": first, "hb": second}])], list(perm)
+
+
+def fieldless_cases():
+    """root models without any field (inputs `{}`): two of them have equal key sets, and share 0 keys with everything"""
+    a = {"f%d" % i: 1 for i in range(3)}
+    for policy in ([ModelFieldsEquals()], [ModelFieldsEquals(), ModelFieldsNumberMatch(2)], [ModelFieldsNumberMatch(0)],
+                   [ModelFieldsNumberMatch(0), ModelFieldsEquals()], [ModelFieldsNumberMatch(1)]):
+        yield [("Ping", [{}]), ("Pong", [{}])], policy
+        yield [("Ping", [{}]), ("Full", [a]), ("Pong", [{}])], policy
+        yield [("Full", [a]), ("Ping", [{}, {}]), ("Other", [dict(a)])], policy
 
 
 def boundary_cases():
@@ -270,7 +280,7 @@ def falsify(ctx):
                 continue
             inputs, kedges = table_inputs(n, edges)
             cases.append((inputs, [stages.TableCmp(kedges)], bool(edges)))
-    for inputs, cmps in list(boundary_cases()) + list(order_cases()):
+    for inputs, cmps in list(boundary_cases()) + list(order_cases()) + list(fieldless_cases()):
         cases.append((inputs, cmps, True))
     for _ in range(ctx.n(150, 3000)):
         cases.append(([("Root", [threshold_sample(rng)])], threshold_cmps(rng), True))
